@@ -153,7 +153,7 @@ def run(ctx):
     ctx.guard(_helpers.integrator_argument_forms, ctx, py, "C13")
     # frame of the modules under contract (no state kept between calls, arguments left alone): same analysis as C19
     from props import C19 as _C19
-    ctx.guard(_C19.frame_obligations, ctx, py, "C13", {'measurements', 'strapdown', 'filters', 'error_model', '_numba_integrate'})
+    ctx.guard(_C19.frame_obligations, ctx, py, "C13", {'_numba_integrate', 'util', 'error_model', 'strapdown', 'transform', 'filters', 'measurements'})
 
 
 def _filter_frame(ctx, py):
